@@ -133,6 +133,14 @@ def native_prints(prop, tier, seed):
                            'axcut2backend::statements::exit::Exit::code_statement'])
 
 
+@register('native_heap')
+def native_heap(prop, tier, seed):
+    sums, cmd = native_run(['heap', '--tier', tier, '--seed', str(seed)])
+    return _native_result('native_heap', sums, cmd,
+                          ['<backend>::memory::{store,load,store_fields,load_fields,store_values,load_values,store_value,load_value,store_field,load_field,store_zeros,acquire_block,release_block,erase_block,share_block_n,skip_if_zero,if_zero_then_else}',
+                           'axcut2backend::statements::substitute::Substitute::code_statement'])
+
+
 def _emitters(prop, tier, seed, backend):
     sums, cmd = native_run(['emitters', '--backend', backend, '--seed', str(seed)])
     return _native_result('native_emitters/' + backend, sums, cmd, ['<%s>::code::Instructions::*' % backend], backend)
@@ -239,6 +247,16 @@ def find_counterexample(prop, unit, fn, obligation, tier):
     """Search a concrete failing input for a rejected / undecided Verus obligation by running the real
     function natively against the executable form of its contract."""
     backend = backend_of(unit)
+    if backend and unit.endswith('_memory'):
+        try:
+            sums, cmd = native_run(['heap', '--backend', backend, '--tier', 'quick'], timeout=900)
+        except Exception:
+            return None
+        for s in sums:
+            for v in s['violations']:
+                return {'found_by': 'native heap audit of the real memory code', 'backend': backend, 'input': v.get('input'),
+                        'what': v.get('what'), 'instructions': v.get('instructions'), 'replay_cmd': cmd}
+        return None
     em = emitter_of(fn)
     if not backend or not em:
         return None
